@@ -8,10 +8,10 @@ import (
 
 func init() {
 	register(&Property{
-		ID: "C19",
+		ID:          "C19",
 		Explanation: "Decides structural clauses of the raft core's log view: the fields of the in-memory log (entries, markerIndex, savedTo, appliedTo*, snapshot, shrunk) are written only by methods of the in-memory log itself; on the truncating branches of merge (entries re-assigned from anything but an append to the existing slice) savedTo is lowered on every path (truncate => re-persist); savedTo advances only under the index-bound and term-match tests; entries are handed out for apply only up to committed (and the apply range starts after processed); every Update passes validateUpdate (apply <= commit and apply <= save) before it leaves the peer; the persisted-ack (commitUpdate) is fed from the Update that was saved. Equality with the logical log model is declined.",
-		NotCovered: "equality of every log query with a reference log model over arbitrary interleavings (value-level; not applicable to static analysis)",
-		Run:        runC19,
+		NotCovered:  "equality of every log query with a reference log model over arbitrary interleavings (value-level; not applicable to static analysis)",
+		Run:         runC19,
 	})
 }
 
@@ -91,6 +91,7 @@ func runC19(e *Engine, r *Report) {
 		r.check(dep, "MPT-truncate-resave", "savedTo in merge bounded by firstNewIndex-1 at "+e.ipos(w.Instr), e.ipos(w.Instr),
 			"savedTo is lowered to at most firstNewIndex-1", "savedTo in merge no longer depends on firstNewIndex-1")
 	}
+	ruleInMemEntriesFresh(e, r)
 	// ---- savedLogTo advances only under bound and term tests
 	if slt := r.need("(*internal/raft.inMemory).savedLogTo"); slt != nil {
 		entTerm := e.Field("raftpb", "Entry", "Term")
